@@ -39,7 +39,7 @@ RORes(c) ==
        ELSE RefStep(ref, c).res
 
 RODo(c) == /\ last' = Obs(c, RORes(c), FALSE, 0)
-           /\ UNCHANGED <<tape, tend, index, ref, narch, epoch>>
+           /\ UNCHANGED <<tape, tend, index, ref, narch, epoch, hs>>
 
 Useful(c) == /\ RefStep(ref, c).res = "ok" /\ c.op \notin Observers
              /\ ~(c.op = "Rename" /\ c.p = c.q) /\ ~(c.op = "RemoveAll" /\ c.p \notin DOMAIN ref)
@@ -65,7 +65,7 @@ RWStep == /\ phase = "rw" /\ Len(hist) < Depth
           /\ UNCHANGED <<phase, done>>
 Switch == /\ phase = "rw" /\ Len(hist) >= Depth
           /\ phase' = "ro" /\ last' = Obs(C("Switch", Root, Root, "", 0), "ok", FALSE, 0)
-          /\ UNCHANGED <<tape, tend, index, ref, narch, epoch, hist, done>>
+          /\ UNCHANGED <<tape, tend, index, ref, narch, epoch, hs, hist, done>>
 ROStep == /\ phase = "ro" /\ ~done /\ Len(hist) < Depth + RODepth
           /\ \E c \in PickRO : RODo(c)
           /\ hist' = Append(hist, Entry(last', "ro"))
@@ -80,7 +80,7 @@ RSpec == RInit /\ [][RNext]_rvars
 \* exhaustive variant (no history, no random picks) for model checking the design
 MCNext == \/ (phase = "rw" /\ Next /\ UNCHANGED <<phase, hist, done>>)
           \/ (phase = "rw" /\ phase' = "ro" /\ last' = Obs(C("Switch", Root, Root, "", 0), "ok", FALSE, 0)
-              /\ UNCHANGED <<tape, tend, index, ref, narch, epoch, hist, done>>)
+              /\ UNCHANGED <<tape, tend, index, ref, narch, epoch, hs, hist, done>>)
           \/ (phase = "ro" /\ (\E c \in ROCalls : RODo(c)) /\ UNCHANGED <<phase, hist, done>>)
 MCSpec == RInit /\ [][MCNext]_rvars
 ROView == <<tape, tend, index, ref, narch, phase, last.res>>
